@@ -18,10 +18,20 @@ func (e *Engine) uf(name string, args []*Term, res Sort) *Term {
 	}
 	e.S.DeclareFun(name, sorts, res)
 	t := &Term{Op: "uf:" + name, Args: args, Sort: res}
-	if old, ok := e.ufApps[t.String()]; ok {
+	// applications are identified by their argument terms' identities (constants and variables by text): printing a
+	// merged ite argument as a tree (Term.String) is exponential in the depth of the DAG
+	key := name
+	for _, a := range args {
+		if a.Op == "const" || a.Op == "var" {
+			key += "|" + a.String()
+		} else {
+			key += fmt.Sprintf("|%p", a)
+		}
+	}
+	if old, ok := e.ufApps[key]; ok {
 		return old
 	}
-	e.ufApps[t.String()] = t
+	e.ufApps[key] = t
 	return t
 }
 
